@@ -43,8 +43,45 @@ def rule_mem(crate, prop, tier):
     }
 
 
+def _schema(name):
+    def f(crate, prop, tier):
+        from . import schema
+        return getattr(schema, name)(crate, prop, tier)
+    return f
+
+
+def rule_exhaust_for(names):
+    def f(crate, prop, tier):
+        from .schema import rule_exhaust
+        return rule_exhaust(crate, prop, tier, only=names)
+    return f
+
+
+def _guard(name, *a):
+    def f(crate, prop, tier):
+        from . import guard
+        r = getattr(guard, name)
+        if a:
+            r = r(*a)
+        return r(crate, prop, tier)
+    return f
+
+
 RULES = {
     "MEM": rule_mem,
+    "GUARD": _guard("rule_guard"),
+    "NOPANIC-AFTER-WRITE": _guard("rule_nopanic_after_write"),
+    "TOTAL-REMOVE": _guard("rule_total", ["remove_arc"], 5),
+    "TOTAL": _guard("rule_total", None, 21),
+    "ENCAPS": _guard("rule_encaps"),
+    "EXHAUST-DJ": rule_exhaust_for(["::Dijkstra", "::DijkstraDist"]),
+    "EXHAUST-BFS": rule_exhaust_for(["::Bfs", "::BfsDist"]),
+    "EXHAUST-PRED": rule_exhaust_for(["::BfsPred", "::DijkstraPred"]),
+    "EXHAUST-DFS": rule_exhaust_for(["::Dfs", "::DfsDist", "::DfsPred"]),
+    "SCHEMA-BFS": _schema("rule_schema_bfs"),
+    "SCHEMA-DFS": _schema("rule_schema_dfs"),
+    "SCHEMA-DJ": _schema("rule_schema_dj"),
+    "SCHEMA-PRED": _schema("rule_schema_pred"),
 }
 
 COMMON_ASSUMPTIONS = [
@@ -57,7 +94,72 @@ COMMON_ASSUMPTIONS = [
     "the semantics table of std functions (gsa/effects.py) is correct",
 ]
 
+SCHEMA_TB = ["rustc MIR + trait solver", "gsa-driver fact exporter", "gsa/effects.py std semantics table",
+             "the textbook invariant proofs of BFS/DFS/Dijkstra (DESIGN appendix B) connect the obligations to the property"]
+
 PROPERTY_RULES = {
+    "C01": {
+        "rules": ["GUARD", "NOPANIC-AFTER-WRITE", "TOTAL-REMOVE", "ENCAPS"],
+        "explanation": "For every function taking `&mut <representation>` (11 today) each arc-insertion site must be dominated "
+                       "by tail != head, tail < order and head < order (GUARD; AdjacencyMap: tail != head and both endpoints "
+                       "become keys on every path, ADMIT); the insertion is BTreeSet/BTreeMap::insert or `|=` (IDEMPOTENT, "
+                       "toggle is the one `^=`), the stored weight is the weight argument, block index and bit mask address "
+                       "the same cell u*order+v; no panic site is reachable after a modification (a rejected call leaves "
+                       "the digraph unchanged); remove_arc cannot panic for any arguments (TOTAL); all fields of the five "
+                       "structs are private and no reachable function returns a mutable handle into them (ENCAPS).",
+        "trusted_base": ["rustc MIR + trait solver", "gsa-driver fact exporter", "gsa/effects.py std semantics table",
+                         "BTreeSet/BTreeMap give de-duplication and ascending iteration (std)"],
+        "not_decided": "that a sequence of accepted calls yields exactly the model's arc set; ascending order of arcs()/vertices() "
+                       "(consequences of the ordered containers' semantics)",
+        "assumptions": COMMON_ASSUMPTIONS,
+    },
+    "C03": {
+        "rules": ["EXHAUST-DJ", "SCHEMA-DJ"],
+        "explanation": "Dijkstra and DijkstraDist are checked against the lazy-deletion schema on every path of new/next/"
+                       "distances: None only on the empty-heap edge (J1), min-heap on Reverse<key> (J2), every push is "
+                       "dominated by a strict `new < dist[v]` test, stores that key into dist[v] and the key is popped "
+                       "key + arc weight (J3), an entry is emitted only under `popped key == dist[vertex]` (J4), the "
+                       "neighbour scan is complete (J5), sources get dist 0 and key Reverse(0) (J6), yielded values are "
+                       "the popped ones and distances() folds them into a usize::MAX-filled vector (J7).",
+        "trusted_base": SCHEMA_TB,
+        "not_decided": "optimality and emission order as values (they follow from J2-J4 by the standard proof, which is not "
+                       "mechanised); behaviour on path sums that overflow usize",
+        "assumptions": COMMON_ASSUMPTIONS + ["the iterator is worklist-driven with lazy deletion (design choice encoded in the schema)"],
+    },
+    "C04": {
+        "rules": ["EXHAUST-BFS", "SCHEMA-BFS"],
+        "explanation": "Bfs and BfsDist are checked against the BFS schema: None only on the empty-queue edge (B1), a vertex "
+                       "is enqueued only under a dominating `not visited` test and marked on the same path (B2), the scan "
+                       "of out_neighbors(dequeued vertex) is complete (B3), FIFO pop_front/push_back (B4), every source is "
+                       "enqueued and marked by new (B5), the dequeued element is the one yielded, level = parent level + 1, "
+                       "distances() stores the yielded level at the yielded vertex in a usize::MAX-filled vector (B6).",
+        "trusted_base": SCHEMA_TB,
+        "not_decided": "equality of the yielded set with the reachable set as a value (follows from B1-B5 by induction on hop distance)",
+        "assumptions": COMMON_ASSUMPTIONS + ["mark-on-enqueue BFS (design choice encoded in the schema)"],
+    },
+    "C05": {
+        "rules": ["EXHAUST-PRED", "SCHEMA-BFS", "SCHEMA-DJ", "SCHEMA-PRED"],
+        "explanation": "BfsPred and DijkstraPred inherit the BFS / Dijkstra schema; in addition the predecessor pushed with a "
+                       "vertex is Some(the popped vertex whose out-neighbour scan produced it) (P1), predecessors()/"
+                       "shortest_path()/cycles() store the yielded predecessor at the yielded vertex (P2), shortest_path "
+                       "returns a path only under a successful predicate test on the yielded vertex, stops at the first "
+                       "such vertex and returns None only on the exhaustion edge (P3); cycles() closes a chain of v only "
+                       "with an out-neighbour of v.",
+        "trusted_base": SCHEMA_TB,
+        "not_decided": "minimality of the returned path among several targets and elementariness of cycles() as values",
+        "assumptions": COMMON_ASSUMPTIONS,
+    },
+    "C06": {
+        "rules": ["EXHAUST-DFS", "SCHEMA-DFS"],
+        "explanation": "Dfs, DfsDist and DfsPred are checked against the explicit-stack DFS schema: a stale stack entry must "
+                       "not end the iteration (D1, EXHAUST), a vertex is yielded only under a `not visited` test and after "
+                       "being marked (D2), every out-neighbour of the popped vertex is scanned and pushed unless visited "
+                       "(D3), Vec::pop/push LIFO (D4), pushed predecessor = popped vertex, pushed depth = popped depth + 1, "
+                       "seeds are exactly the sources with None / 0 (D5).",
+        "trusted_base": SCHEMA_TB,
+        "not_decided": "the preorder as a value; D1 is violated on the current tree (known finding F2, pinned by four existing tests)",
+        "assumptions": COMMON_ASSUMPTIONS + ["mark-on-pop stack DFS (design choice encoded in the schema)"],
+    },
     "C13": {
         "rules": ["MEM"],
         "explanation": "Every unsafe operation of the library (raw pointer offset/dereference, get_unchecked, "
